@@ -47,6 +47,8 @@ def world_cfg(case):
              {"name": "peer2.example", "ip": ["10.1.1.2"], "persistent": True, "reconnect_wait": 2},
              {"name": "peer3.example", "ip": ["10.1.1.3"]}]
     return {"peers": peers, "apps": [app], "default_dial": "inprogress",
+            # the first dials of the persistent peer may fail at once (no route to the host), in the caller's thread of start()
+            "dial_plan": {"10.1.1.2": [["sync-error", 101]] * case["sync_failed_dials"]} if case.get("sync_failed_dials") else {},
             "node_timers": {"idle": 30, "dwa": 3, "cer": 3, "cea": 3, "wakeup": 2},
             "sched_seed": case.get("seed", 0), "yield_all": case.get("yield_all", False),
             "policy": "random" if case.get("seed", 0) % 2 else "fifo"}
@@ -269,7 +271,8 @@ def evaluate(case) -> Result:
             res.v(f"C14/probe-differs/{kind}", f"after the faults the probe gives {got}, a fresh node gives {want}")
         outcomes = case.get("outcomes", ["answer"])
         res.nontrivial = injected >= 1 or any(o != "answer" for o in outcomes)
-        res.classes += [f"app:{case['app_kind']}", f"limit:{case.get('limit', 0)}", f"nfaults:{injected}"]
+        res.classes += [f"app:{case['app_kind']}", f"limit:{case.get('limit', 0)}", f"nfaults:{injected}",
+                        f"sync-failed-dials:{min(case.get('sync_failed_dials', 0), 2)}"]
         for (sc, cutc, f) in case["faults"]:
             res.classes += [f"scenario:{sc}", f"cut:{cutc}", f"fault:{f}"]
         for o in outcomes:
@@ -317,6 +320,10 @@ def shard_main(shard, nshards, tier, scale):
                 for sc in ("req", "req2"):
                     jobs.append({"app_kind": "threading", "limit": limit, "outcomes": [outcome], "faults": [[sc, "full", f]],
                                  "dwell": 0, "gap": 1, "probe_host": "peer1.example"})
+    for app_kind, limit in (("basic", 0), ("threading", 1)):
+        for nfail in (1, 2, 3):
+            jobs.append({"app_kind": app_kind, "limit": limit, "outcomes": ["answer"], "faults": [["req", "full", "eof"]],
+                         "sync_failed_dials": nfail, "gap": 3})
     if shard == 0:
         rec.extra["grid_jobs"] = len(jobs)
     for case in jobs[shard::nshards]:
@@ -336,6 +343,7 @@ def shard_main(shard, nshards, tier, scale):
                 "faults": [list(x) for x in draw(st.lists(f, min_size=1, max_size=3))],
                 "dwell": draw(st.integers(0, 3)), "gap": draw(st.integers(0, 4)),
                 "probe_host": draw(st.sampled_from(["peer3.example", "peer1.example"])),
+                "sync_failed_dials": draw(st.sampled_from([0, 0, 1, 2])),
                 "seed": draw(st.integers(0, 7)), "yield_all": draw(st.booleans())}
 
     def body(case):
@@ -351,7 +359,7 @@ def run(tier, scale=1.0):
     rec = Recorder(PID)
     for d in hyp.pool_run(shard_main, (tier, scale)):
         rec.merge(d)
-    required = {f"scenario:{s}": 1 for s in SCENARIOS} | {f"cut:{c}": 1 for c in CUTS} | \
+    required = {"sync-failed-dials:2": 1} | {f"scenario:{s}": 1 for s in SCENARIOS} | {f"cut:{c}": 1 for c in CUTS} | \
                {f"fault:{f}": 1 for f in FAULTS} | {f"outcome:{o}": 1 for o in OUTCOMES} | \
                {"limit:3": 1, "nfaults:3": 1, "app:basic": 1, "probe:retransmission-of-unanswered": 1}
     return finish(rec, tier=tier, level="fault_enumeration", rule=RULE, assumptions=ASSUME, t0=t0,
